@@ -7,20 +7,21 @@ From Krrood Require Import Base.Sx Orm.ObjGraph Orm.Iso Orm.ObjGraphWalk Orm.Obj
 Import ListNotations.
 Local Open Scope nat_scope.
 
-(* For every user code [enc]/[dec] (create_instance / create_from_dao on the column values) that round-trips, every class model
+(* For every user code [enc]/[dec] (create_instance / create_from_dao resp. krrood's own copying of columns) whose composition is
+   the identity on the column values of the heap (codec_ok, part of F04w: the hypothesis the property text grants), every class model
    (alternative mappings [alts], DAOs below an alternatively mapped DAO [ab]) and every closed heap (any size, depth,
    sharing, cycles, None, empty and repeated collections, any concrete class in any field, alternatively mapped objects
    anywhere) in F04w -- the class model is coherent on the heap and from_dao never hands out a mapping object that is still
    in progress (no cycle FIRST ENTERED at an alternatively mapped object) -- both conversions terminate on fuel |heap|+1
    resp. |DAOs|+1 and from_dao (to_dao g) is isomorphic to g. *)
-Theorem C04_round_trip : forall enc dec : Z -> list Z -> list Z, (forall c s, dec c (enc c s) = s) ->
-  forall alts ab l r, wf_heap l r = true -> F04w enc dec alts ab l r = true ->
+Theorem C04_round_trip : forall (enc dec : Z -> list Z -> list Z) alts ab l r,
+  wf_heap l r = true -> F04w enc dec alts ab l r = true ->
   exists r' s2, round_trip enc dec alts ab l r = Some (r', s2) /\ bad s2 = false /\ iso (dst s2) r' (heap_of l) r.
 Proof. exact round_trip_iso_w. Qed.
 
 (* the fragment of the first version (no object of an alternatively mapped class or of a mapping class at all) lies inside *)
-Theorem C04_round_trip_plain : forall enc dec : Z -> list Z -> list Z, (forall c s, dec c (enc c s) = s) ->
-  forall alts ab l r, wf_heap l r = true -> F04 alts l = true ->
+Theorem C04_round_trip_plain : forall (enc dec : Z -> list Z -> list Z) alts ab l r,
+  wf_heap l r = true -> F04 alts l = true -> codec_ok enc dec l = true ->
   exists r' s2, round_trip enc dec alts ab l r = Some (r', s2) /\ bad s2 = false /\ iso (dst s2) r' (heap_of l) r.
 Proof. exact round_trip_iso. Qed.
 
@@ -88,6 +89,15 @@ Theorem C04_refuted_altcycle :
     ~ iso (dst s2) r' (heap_of altcycle_heap) 0.
 Proof. exact refuted_altcycle. Qed.
 
+(* outside the fragment: a class two levels below an alternatively mapped class whose mapping renames a column (finding C04-d):
+   from_dao consults only the immediate base DAO for an alternative parent, the column comes back as the default:
+   codec_ok fails, no mapping object was handed out, and the result is not isomorphic *)
+Theorem C04_refuted_altgrandchild :
+  wf_heap altgc_heap 0 = true /\ alts_ok altcycle_alts altgc_heap = true /\ codec_ok idc (decg altgc_gc) altgc_heap = false /\
+  exists r' s2, round_trip idc (decg altgc_gc) altcycle_alts [12; 13]%Z altgc_heap 0 = Some (r', s2) /\ bad s2 = false /\
+    ~ iso (dst s2) r' (heap_of altgc_heap) 0.
+Proof. exact refuted_altgrandchild. Qed.
+
 (* regression example about the code BEFORE 32013a0 (no keep_alive in FromDAOState): nothing is pinned, the recycled
    address is admissible, and the second from_dao returns the first row's object *)
 Example C04_regression_state_reuse_old :
@@ -104,7 +114,7 @@ Proof. exact old_state_reuse_regression. Qed.
 Example C04_nonvacuous :
   (let l := [(0, mkObj 20 [5%Z] [(2%Z, [1]); (3%Z, [1])]); (1, mkObj 10 [1%Z] [(1%Z, [0]); (4%Z, [2])]); (2, mkObj 12 [3%Z; 4%Z] [])] in
    wf_heap l 0 = true /\ F04 altcycle_alts l = false /\ F04w idc idc altcycle_alts [12%Z] l 0 = true /\
-   model_canon altcycle_alts [12%Z] l 0 = spec_canon l 0) /\
+   model_canon altcycle_alts [12%Z] [] l 0 = spec_canon l 0) /\
   F04w idc idc altcycle_alts [] altcycle_heap 1 = true /\ F04w idc idc altcycle_alts [] altcycle_heap 0 = false.
 Proof. split; [exact widened_fragment_example|]. split; vm_compute; reflexivity. Qed.
 
@@ -117,3 +127,4 @@ Print Assumptions C04_state_reuse_scenario_excluded.
 Print Assumptions C04_iso_bijection.
 Print Assumptions C04_canon_sound.
 Print Assumptions C04_refuted_altcycle.
+Print Assumptions C04_refuted_altgrandchild.
